@@ -177,6 +177,8 @@ def _exec(op, kv):
         P = params(kv)
         f = shared(AlignmentSegmentsFactory, P["ms"], P["bs"])
         return C.show_segs(f.getSegments(C.parse_items(kv.get("X", ""), P), Peak(int(kv["peak"]), 1.0)))
+    if op == "CANDIDATE" and kv.get("unit", "1") != "1":
+        return _candidate_fractional(kv)
     if op == "CANDIDATE":
         P = params(kv)
         den = int(kv.get("den", "1"))
@@ -199,6 +201,18 @@ def _exec(op, kv):
         return C.show_row(row) + " cigar=" + row.cigarString
     if op == "CIGAR":
         return cigar_row(bpairs(kv.get("P", ""))).cigarString
+    if op in ("VEC", "SEQ") and kv.get("unit", "1") != "1":
+        # label coordinates with one decimal: the line is in 1/unit bp (resolution, start and end included), the real
+        # generator gets exact fractions and the integer resolution in bp
+        u = int(kv["unit"])
+        stop = None if kv["stop"] == "none" else Fraction(int(kv["stop"]), u)
+        pos = [Fraction(x, u) for x in ints(kv.get("POS", ""))]
+        assert int(kv["res"]) % u == 0
+        if op == "VEC":
+            return "".join(str(b) for b in vectorisePositions(pos, int(kv["res"]) // u, Fraction(int(kv["start"]), u), stop))
+        from src.correlation.sequence_generator import SequenceGenerator
+        v = shared(SequenceGenerator, int(kv["res"]) // u, int(kv["blur"])).positionsToSequence(pos, Fraction(int(kv["start"]), u), stop)
+        return "".join(str(int(b)) for b in v)
     if op == "VEC":
         stop = None if kv["stop"] == "none" else int(kv["stop"])
         return "".join(str(b) for b in vectorisePositions(ints(kv.get("POS", "")), int(kv["res"]), int(kv["start"]), stop))
@@ -695,3 +709,42 @@ def _pair_fractional(kv):
         else:
             out.append(f"Q:{num(p.query.siteId)}:{num(p.query.position * u)}:{num(p.referenceStart * u)}")
     return ",".join(out)
+
+
+def _candidate_fractional(kv):
+    """CANDIDATE with coordinates in 1/unit bp (CMAP coordinates carry one decimal): the line carries the MODEL's integers —
+    coordinates, peaks and maxDistance in units, score parameters multiplied by unit (a pair scores
+    unit*sp - dp*|shift in units|), molecule lengths as L' = unit*L - (unit - 1).  The real aligner gets the true values as
+    exact fractions; everything it returns is scaled back."""
+    u = int(kv["unit"])
+    P = params(kv)
+    Pr = dict(sp=Fraction(P["sp"], u), dp=P["dp"], su=Fraction(P["su"], u), md=Fraction(P["md"], u), ms=Fraction(P["ms"], u), bs=Fraction(P["bs"], u))
+    al = make_aligner(Pr, frac(kv["mult"]), int(kv["var"]), int(kv["it"]))
+
+    def fmap(t):
+        a, b, c, d = t.split(":")
+        return OpticalMap(int(a), Fraction(int(b) + u - 1, u), [Fraction(int(x), u) for x in d.split(",")] if d else [], int(c))
+    peaks = [Peak(Fraction(p, u), float(10 + (p * 7919 + i * 104729) % 97), 0, 0, float((p * 31 + i) % 89)) for i, p in enumerate(ints(kv.get("peaks", "")))]
+    row = al.align(fmap(kv["REF"]), fmap(kv["QRY"]), peaks, kv["rev"] == "1")
+
+    def sc(x):          # a coordinate or score, scaled back to integer units (an empty segment scores float 0.0: sums may be floats)
+        if isinstance(x, float):
+            return str(round(x * u))
+        return num(x * u)
+
+    def ln(x):          # a molecule length L -> L'
+        return num(x * u - (u - 1))
+
+    def item(p):
+        if type(p).__name__ == "ScoredNotAlignedPosition":
+            p = p.position
+        if isinstance(p, AlignedPair):
+            return f"P:{num(p.reference.siteId)}:{sc(p.reference.position)}:{num(p.query.siteId)}:{sc(p.query.position)}:{sc(p.queryShift)}"
+        if type(p).__name__ == "NotAlignedReferencePosition":
+            return f"R:{num(p.reference.siteId)}:{sc(p.reference.position)}"
+        return f"Q:{num(p.query.siteId)}:{sc(p.query.position)}:{sc(p.referenceStart)}"
+    segs = ";".join(f"{sc(s.peak.position)}|" + ",".join(item(p) for p in s.positions) for s in row.segments)
+    return (f"q={num(row.queryId)} r={num(row.referenceId)} ql={ln(row.queryLength)} rl={ln(row.referenceLength)} "
+            f"qs={sc(row.queryStartPosition)} qe={sc(row.queryEndPosition)} rs={sc(row.referenceStartPosition)} "
+            f"re={sc(row.referenceEndPosition)} rev={1 if row.reverseStrand else 0} conf={sc(row.confidence)} "
+            f"rest={1 if row.alignedRest else 0} SEG={segs} cigar={row.cigarString}")
